@@ -24,12 +24,13 @@ VIEW View
 CONSTRAINT Bounded
 ACTION_CONSTRAINT EmitEdge
 INVARIANTS Isolation EmitTables
+PROPERTIES NamesFixed CloneIsolated
 """
 
 
 def run(ck):
     quick = ck.quick()
-    cfg = CFG % ('"a", "b", "c"', "MCVals2", 7) if quick else CFG % ('"a", "b", "c"', "MCVals2", 40)
+    cfg = CFG % ('"a", "b", "c"', "MCVals2", 6) if quick else CFG % ('"a", "b", "c"', "MCVals2", 7)
     r = ck.tlc("ScriptAPI", cfg, workers=1, name="api", timeout=3000, xmx="12g")
     if r.violated:
         raise vlib.Infra("ScriptAPI.tla violates %s:\n%s" % (r.violated, r.stdout[-2000:]))
@@ -115,6 +116,16 @@ def run(ck):
                         bad.append("Array()/Map()/Error() accessors disagree with the value's type %s" % t)
                     if t in ("undefined", "array", "map", "error", "time", "bytes") and (acc["int"] != 0 or acc["float"] != "0" or acc["char"] != 0):
                         bad.append("numeric accessors of a %s are not zero values" % t)
+                    exp = o["exp"]
+                    if kind not in ("map[string]Object", "map[string]interface{}", "[]Object", "[]interface{}", "error", "time.Time", "[]byte", "Object", "nil"):
+                        if acc["int"] != exp["int"] or acc["int64"] != exp["int"]:
+                            bad.append("Int()/Int64() = %s/%s, the coercion table gives %s" % (acc["int"], acc["int64"], exp["int"]))
+                        if acc["float"] != exp["float"]:
+                            bad.append("Float() = %s, the coercion table gives %s" % (acc["float"], exp["float"]))
+                        if acc["char"] != exp["char"]:
+                            bad.append("Char() = %s, the coercion table gives %s" % (acc["char"], exp["char"]))
+                        if exp.get("string_known") and acc["string"] != exp["string"]:
+                            bad.append("String() = %r, expected %r" % (acc["string"], exp["string"]))
         if bad:
             ck.violation("interop:" + kind, "Go %s %s: %s" % (kind, o.get("go", "")[:80], "; ".join(bad)), {"observation": o})
         else:
